@@ -103,9 +103,10 @@ def gen_sequence(rng, fam, res, thorough):
         cands = [-1, -2, -3, -40, -150, -498, -32768, 0] if fam == "pod" else [maxl, maxl + 1, 65535]
         if res == "gac":
             cands += [15000, 15001, 15400, 20000, 32767]
-        for i in rng.sample(range(1, n), min(n - 1, rng.choice([1, 2, 4]))) if n > 2 else []:
+        for i in rng.sample(range(1, n), min((n - 1) // 4, rng.choice([1, 2, 4]))) if n > 4 else []:
             nums[i] = rng.choice(cands)
         info["corrupted"] = [i for i in range(n) if nums[i] != n0 + i]
+        info["majority_intact"] = 4 * len(info["corrupted"]) < n
     elif kind == "corrupt-many":
         k = min(n // 3, rng.choice([60, 100, 300]))
         for i in rng.sample(range(n), k):
@@ -139,7 +140,7 @@ def judge(ctx, fmt, raw, info, surv, err):
         in_range = [x for x in nums if 0 <= x < maxl]
         # when every record is implausible (all deviate by more than the threshold from the median offset) nothing is
         # left and numpy's amin raises: the property is silent there. It does speak when records must be kept.
-        must_keep = info["kind"] in ("clean", "out-of-range") or info.get("exact_clause")
+        must_keep = info["kind"] == "clean" or info.get("exact_clause") or info.get("majority_intact")
         if not err.startswith("ValueError"):
             ctx.violation("%s: sanitising raised %s on %s..." % (fmt, err, nums[:8]), payload, cls="raises-other:%s" % fam)
             return
